@@ -1,7 +1,76 @@
 package main
 
-// replayModel tries to turn a solver model into a concrete input and run it on the real code.
-// Returns (confirmed, info).
+import (
+	"bytes"
+	"context"
+	"encoding/json"
+	"os"
+	"os/exec"
+	"path/filepath"
+	"regexp"
+	"strings"
+	"time"
+)
+
+// A replay driver is an in-package Go test (under /verif/replay) that drives the real code into
+// the situation an obligation describes and fails with "VIOLATION-CONFIRMED" when the real code
+// misbehaves. Drivers are injected with go test -overlay; nothing is written into /repo.
+type replayDriver struct {
+	Obligation string `json:"obligation_regex"`
+	TestFile   string `json:"test_file"`
+	Run        string `json:"run"`
+	Pkg        string `json:"pkg"` // directory relative to the repo root ("." default)
+	What       string `json:"what"`
+}
+
+func loadDrivers() []replayDriver {
+	var ds []replayDriver
+	b, err := os.ReadFile(filepath.Join(verifDir(), "replay", "registry.json"))
+	if err == nil {
+		json.Unmarshal(b, &ds)
+	}
+	return ds
+}
+
+// replayModel tries to replay a failed obligation on the real code. Returns (confirmed, info).
 func replayModel(r *SolveResult, repo string) (bool, map[string]any) {
+	for _, d := range loadDrivers() {
+		re, err := regexp.Compile(d.Obligation)
+		if err != nil || !re.MatchString(r.Obl.Name) {
+			continue
+		}
+		ok, out := runDriver(d, repo)
+		info := map[string]any{"driver": d.TestFile, "run": d.Run, "what": d.What, "output": truncate2(out, 6000),
+			"cmd": "go test -tags verif -overlay <ov.json> -vet=off -count=1 -timeout 120s -run " + d.Run + " ./" + d.Pkg}
+		return ok, info
+	}
 	return false, nil
+}
+
+func runDriver(d replayDriver, repo string) (bool, string) {
+	dir, err := os.MkdirTemp("", "gocv-replay")
+	if err != nil {
+		return false, err.Error()
+	}
+	defer os.RemoveAll(dir)
+	pkg := d.Pkg
+	if pkg == "" {
+		pkg = "."
+	}
+	target := filepath.Join(repo, pkg, "zz_verif_replay_test.go")
+	ov := map[string]any{"Replace": map[string]string{target: filepath.Join(verifDir(), "replay", d.TestFile)}}
+	b, _ := json.Marshal(ov)
+	ovf := filepath.Join(dir, "ov.json")
+	os.WriteFile(ovf, b, 0o644)
+	ctx, cancel := context.WithTimeout(context.Background(), 8*time.Minute)
+	defer cancel()
+	cmd := exec.CommandContext(ctx, "go", "test", "-tags", "verif", "-overlay", ovf, "-vet=off", "-count=1", "-timeout", "120s", "-run", "^"+d.Run+"$", "./"+pkg)
+	cmd.Dir = repo
+	cmd.Env = append(os.Environ(), "GOFLAGS=-mod=mod", "GOPROXY=off")
+	var out bytes.Buffer
+	cmd.Stdout = &out
+	cmd.Stderr = &out
+	cmd.Run()
+	s := out.String()
+	return strings.Contains(s, "VIOLATION-CONFIRMED"), s
 }
